@@ -502,13 +502,16 @@ impl ContinuityStore {
                     if !tail.events.is_empty() {
                         // Prefer the full continuity sidecar's head seq so `from_seq` matches the
                         // truth stream even when the mr sidecar omits non-message events.
-                        let head_seq = self
+                        // The mr sidecar omits non-message frames, so its last seq is not the
+                        // head: without the full sidecar fall back to the other read paths.
+                        let Some(head_seq) = self
                             .stream_cache
                             .try_read_last_seq(continuity_id)
                             .ok()
                             .flatten()
-                            .or_else(|| tail.events.last().map(|event| event.seq))
-                            .unwrap_or_default();
+                        else {
+                            break;
+                        };
 
                         let mut message_events: Vec<(u64, String)> = Vec::new();
                         for event in &tail.events {
